@@ -149,12 +149,49 @@ def _base_agreement(ctx, L, bases):
             continue
         n_proved += rec.status == "proved"
         ctx.ob("C01.base-agreement", rec.construct, rec.status == "proved", rec.message, rec.witness, rec.where, sample=rec.sample)
+    if ctx.tier == "thorough":
+        _entry_agreement(ctx, L)
     ctx.anchor("native base / Cartesian base pairs compared", n_pairs, 100)
     ctx.analysed["base_pairs"] = n_pairs
     ctx.analysed["base_pairs_proved"] = n_proved
     ctx.analysed["base_pairs_undecided"] = undecided
     if undecided:
         ctx.decline("C01.base-agreement left undecided (no proof in the ring fragment, no differing point found): " + ", ".join(undecided))
+
+
+def _entry_agreement(ctx, L):
+    """thorough tier: the E3b comparison for every table entry, by module in parallel (independent of bases.json and of E3)"""
+    import concurrent.futures as cf
+    import os
+
+    ctx.rule("C01.entry-agreement", "thorough tier, every non-Cartesian table entry (not only the frozen bases): " + denote.RULE_DOC)
+    shorts = [L.short(mn) for mn in L.mods if L.short(mn).split(".")[1] not in denote.COMPARISON_POLICY]
+    jobs = min(16, os.cpu_count() or 1)
+    n = proved = 0
+    undecided = []
+    with cf.ProcessPoolExecutor(max_workers=jobs) as ex:
+        for recs in ex.map(_entry_worker, [(str(ctx.repo), s) for s in shorts]):
+            for construct, status, message, witness, where in recs:
+                n += 1
+                if status == "undecided":
+                    undecided.append(construct)
+                    continue
+                proved += status == "proved"
+                ctx.ob("C01.entry-agreement", construct, status == "proved", message, witness, where)
+    ctx.anchor("table entries compared with their Cartesian entry", n, 2000)
+    ctx.analysed["entry_comparisons"] = n
+    ctx.analysed["entry_comparisons_proved"] = proved
+    ctx.analysed["entry_comparisons_undecided"] = len(undecided)
+    ctx.analysed["entry_comparisons_undecided_sample"] = undecided[:40]
+    ctx.decline(f"C01.entry-agreement: {len(undecided)} of {n} entry comparisons neither proved in the ring fragment nor refuted by a differing point (nested conversions through theta/eta/tau); they remain covered by C01.template + C01.base-agreement")
+
+
+def _entry_worker(arg):
+    repo, short = arg
+    from pathlib import Path
+
+    L = link(Path(repo))
+    return [(r.construct, r.status, r.message, r.witness, r.where) for r in denote.entry_agreement(L, {short})]
 
 
 def _nearest(t, base_t):
